@@ -2,7 +2,7 @@
 from __future__ import annotations
 
 from .. import gen
-from ..common import q, uncps
+from ..common import cps, q, uncps
 from ..progprop import ProgramProperty, results, is_exc, init_step
 
 ONE_ARG = ["compress", "expand", "compress_or_standardize", "expand_or_standardize", "standardize_prefix",
@@ -20,7 +20,7 @@ class C08(ProgramProperty):
             "only the delimiter, delimiter first / last, unknown prefix, known CURIE, known URI), each sent through "
             "the 14 listed functions in all four strict x passthrough combinations (functions without a "
             "passthrough parameter in both strict modes). Non-trivial = some function returns None by default "
-            "on some input (so the three modes actually differ). Converters are built directly or through histories with warm-up queries, merges and a rejected call.")
+            "on some input (so the three modes actually differ). Converters are built directly or through histories with warm-up queries, merges and a rejected call, next to decoy / bystander converters (gen.build_steps). 10 % of the cases carry a second, laws-only program: c1 = copy.copy(c0), additions to c1, every mode of every function asked of c0 (no model: Python defines what copy.copy shares).")
 
     def budget(self, tier):
         return 1500 if tier == "quick" else 40000
@@ -57,7 +57,32 @@ class C08(ProgramProperty):
                     steps.append(q(0, m, pfx, ident, s=s, p=p))
         steps, how = gen.build_steps(rng, recs, delim, steps)
         _build_tag = "build=" + how
-        return {"steps": steps, "xs": xs, "delim": delim, "tags": [f"delim={delim!r}", _build_tag]}
+        case = {"steps": steps, "xs": xs, "delim": delim, "tags": [f"delim={delim!r}", _build_tag]}
+        if recs and rng.random() < 0.1:
+            # c1 = copy.copy(c0), then c1 learns a prefix (with a synonym) and a synonym of an existing record.  Python's
+            # default shallow copy shares every attribute, so c0 learns them too; a converter class that defines its own
+            # __copy__ may make c1 independent.  Either way c0 must stay consistent with itself: the modes of every function
+            # agree on c0 (no model is involved: this program is judged by the laws below only).
+            t = rng.choice(recs)
+            sh = [{"op": "init", "dst": 0, "records": recs, "delim": [ord(ch) for ch in delim]},
+                  {"op": "clone", "dst": 1, "src": 0, "how": "copy"},
+                  {"op": "add_prefix", "c": 1, "p": cps("shp"), "u": cps("http://shallow.example/new/"), "ps": [cps("SHP")], "us": []},
+                  {"op": "add_prefix", "c": 1, "p": t["p"], "u": cps("http://shallow.example/merged/"), "ps": [cps("shsyn")],
+                   "us": [], "merge": True}]
+            for x in ["shp" + delim + "1", "SHP" + delim + "1", "shsyn" + delim + "1", "http://shallow.example/new/1",
+                      "http://shallow.example/merged/1"]:
+                for m in ONE_ARG:
+                    for s_, p_ in MODES:
+                        if not (m in NO_PT and p_):
+                            sh.append(q(0, m, x, s=s_, p=p_))
+                pfx, _, ident = x.partition(delim)
+                for m in TWO_ARG:
+                    for s_, p_ in MODES:
+                        if not (m in NO_PT and p_):
+                            sh.append(q(0, m, pfx, ident, s=s_, p=p_))
+            case["shadow"] = sh
+            case["tags"].append("shallow-copy-curated")
+        return case
 
     def nontrivial(self, case, impl):
         res = results(case, impl)
